@@ -187,6 +187,17 @@ def check(pid, tier):
     cov["samples"] = samples
     cov["known_findings_printed"] = known_printed
 
+    # batch oracles that do not fit the one-line-per-operation protocol (e.g. C17: a generated crate
+    # with pattern!() invocations compiled against /repo)
+    extra_viol = []
+    if hasattr(P, "extra_checks"):
+        try:
+            extra_viol, extra_stats = P.extra_checks(rng, tier, bindir)
+        except Exception as ex:          # the batch machinery itself broke: not silently ignored
+            extra_viol, extra_stats = ["extra_checks raised %r" % (ex,)], {}
+        cov["extra_checks"] = extra_stats
+        cov["correspondence"]["extra_violations"] = len(extra_viol)
+
     for text in known_printed:
         print("KNOWN-FINDING: property=%s %s" % (pid, text))
 
@@ -206,6 +217,9 @@ def check(pid, tier):
                          "replay": "./check replay <this file>"})
         violations.append(("" if found_input else " no-failing-input-found", p))
         reported += 1
+    for i, text in enumerate(extra_viol[:3]):
+        p = write_replay(pid, seed, 100 + i, [], {"property": pid, "kind": "spec", "detail": text[:3000]})
+        violations.append(("", p))
     if proof_broken and not violations:
         p = write_replay(pid, seed, 0, [], {"property": pid, "kind": "proof", "broken": proof_broken,
                          "theorems": ", ".join(names)[:1500], "note": "no disagreeing input was found by the correspondence run of this tier"})
